@@ -199,7 +199,23 @@ fn eval_fenced_code_block(
 ) -> MResult<Value> {
   let mut out = Value::Empty;
   for (c, cmmnt) in code {
-    match mech_code(c, interpreter) {
+    // An isolated block contains its failures: a kernel panic ends the block like any other error.
+    let result = if isolate_errors {
+      match std::panic::catch_unwind(std::panic::AssertUnwindSafe(|| mech_code(c, interpreter))) {
+        Ok(result) => result,
+        Err(payload) => {
+          let details = match (payload.downcast_ref::<&'static str>(), payload.downcast_ref::<String>()) {
+            (Some(msg), _) => msg.to_string(),
+            (_, Some(msg)) => msg.clone(),
+            _ => "Non-string panic".to_string(),
+          };
+          Err(MechError::new(UnknownPanicError { details }, None).with_compiler_loc())
+        }
+      }
+    } else {
+      mech_code(c, interpreter)
+    };
+    match result {
       Ok(value) => out = value,
       Err(err) => {
         if isolate_errors {
